@@ -57,9 +57,12 @@ func (s Set) ValidateWithContext(ctx context.Context) error {
 // Equals returns true if the sets match, regardless of order.
 func (s Set) Equals(s2 Set) bool {
 	for _, a := range s {
+		if a == nil {
+			continue
+		}
 		match := false
 		for _, b := range s2 {
-			if a.Category == b.Category && a.Rate == b.Rate && a.Country == b.Country {
+			if b != nil && a.Category == b.Category && a.Rate == b.Rate && a.Country == b.Country {
 				match = true
 			}
 		}
@@ -85,7 +88,7 @@ func (s Set) Get(cat cbc.Code) *Combo {
 // Rate returns the rate from the matching category, if set.
 func (s Set) Rate(cat cbc.Code) cbc.Key {
 	for _, c := range s {
-		if c.Category == cat {
+		if c != nil && c.Category == cat {
 			return c.Rate
 		}
 	}
@@ -122,7 +125,7 @@ func (sv *setValidation) Validate(value interface{}) error {
 	}
 	if sv.cat != "" {
 		for i, c := range s {
-			if c.Category == sv.cat {
+			if c != nil && c.Category == sv.cat {
 				err := validation.ValidateStruct(c, sv.comboFields...)
 				if err != nil {
 					return validation.Errors{
